@@ -54,7 +54,8 @@ impl RawParameters {
     // Otherwise, we just copy the globals from the previous step, and
     // update the recursion counter.
     pub fn next(&self, definition: &str) -> RawParameters {
-        let mut recursion_level = self.recursion_level + 1;
+        // The recursion breaker counts macro expansions, not plain pipeline steps
+        let mut recursion_level = self.recursion_level;
         let mut globals = self.globals.clone();
         if definition.is_resource_name() {
             globals.remove("_name");
@@ -88,7 +89,10 @@ impl RawParameters {
     }
 
     pub fn nesting_too_deep(&self) -> bool {
-        self.recursion_level > 100
+        // A macro invoked as a pipeline step is counted twice (once as a step,
+        // once when expanded), so this admits a little more than 50 levels of
+        // nested macros, while still breaking recursion long before the stack does
+        self.recursion_level > 110
     }
 }
 
